@@ -69,19 +69,29 @@ def scan_sites():
             rc, o = common.sh("go build -o %s ./c19scan" % binary, cwd=common.HARNESS, env=common.go_env(), timeout=600)
         if rc != 0:
             raise RuntimeError("go build c19scan: " + o[-1500:])
-        overlay = os.path.join(common.HARNESS, "overlay", "overlay.json")
+        # own overlay file (lib.common.go_build rewrites the shared one for whichever /repo it is building against)
         statik = os.path.join(common.REPO, "client/docs/statik/statik.go")
         flags = "-tags=verif"
-        if os.path.exists(statik) and os.path.getsize(statik) == 0 and os.path.exists(overlay):
+        if os.path.exists(statik) and os.path.getsize(statik) == 0:
+            overlay = os.path.join(common.BUILD, "c19scan.overlay.json")
+            open(overlay, "w").write(json.dumps({"Replace": {statik: os.path.join(common.HARNESS, "overlay", "statik.go")}}))
             flags += " -overlay=" + overlay
         env = dict(os.environ)
         env.update(common.go_env())
         env["GOFLAGS"] = flags
-        with common.Lock("go"):
-            p = subprocess.run([binary, common.REPO] + SCAN_PATTERNS, stdout=subprocess.PIPE, stderr=subprocess.PIPE, text=True, env=env, timeout=1500)
-        if p.returncode != 0:
-            raise RuntimeError("c19scan failed: " + p.stderr[-1500:])
-        sites = json.loads(p.stdout)["sites"]
+        for attempt in (0, 1):
+            with common.Lock("go"):
+                p = subprocess.run([binary, common.REPO] + SCAN_PATTERNS, stdout=subprocess.PIPE, stderr=subprocess.PIPE, text=True, env=env, timeout=1500)
+            if p.returncode != 0:
+                raise RuntimeError("c19scan failed: " + p.stderr[-1500:])
+            res = json.loads(p.stdout)
+            sites = res["sites"]
+            # packages that do not type-check (export data of a dependency missing while the build cache is being filled
+            # by a concurrent build, or a /repo that does not compile): try once more, then give up loudly
+            if not res.get("type_errors"):
+                break
+            if attempt == 1:
+                raise RuntimeError("packages do not type-check: %s; %s" % (", ".join(res["type_errors"][:8]), p.stderr[-600:]))
         if len(sites) < 10:
             raise RuntimeError("c19scan found only %d map-iteration sites" % len(sites))
     except Exception as ex:  # noqa
@@ -138,7 +148,8 @@ def gen_setup(r):
     return {"denoms": DENOMS, "fund": str(10**15), "pools": pools,
             "fee_tokens": [["foo", "1"], ["uion", "6"]], "min_distr": "1",
             "protorev": [["uosmo", "foo", "8"], ["uosmo", "bar", "9"], ["uosmo", "stake", "10"], ["uosmo", "usdc", "11"]],
-            "superfluid": ["gamm/pool/1", "gamm/pool/6", "cl/pool/5"]}
+            "superfluid": ["gamm/pool/1", "gamm/pool/6", "cl/pool/5"],
+            "taker_fee": r.choice(["0.001", "0.0015", "0.01"]), "taker_share": [["foo", "0.1", "1"], ["usdc", "0.05", "2"]], "extra_vals": 2}
 
 
 POOLS = {1: ["stake", "foo"], 2: ["stake", "bar", "baz"], 3: ["bar", "baz"], 4: ["eth", "usdc"], 5: ["stake", "usdc"],
@@ -176,7 +187,8 @@ def gen_msg(r, acc, nacc, state):
                   "split_in", "join", "exit", "join_extern", "cl_create", "cl_create", "cl_withdraw", "cl_add", "cl_collect",
                   "cl_collect_inc", "gauge", "gauge", "add_gauge", "tf_create", "tf_mint", "tf_mint", "tf_burn", "tf_force", "tf_force_mod",
                   "tf_admin", "delegate", "withdraw_rewards", "multisend", "gamm_swap", "malformed",
-                  "sf_lock_delegate", "sf_lock_delegate", "sf_undelegate", "sf_unbond", "sf_cl_delegate", "sf_undelegate_unbond"])
+                  "sf_lock_delegate", "sf_lock_delegate", "sf_undelegate", "sf_unbond", "sf_cl_delegate", "sf_undelegate_unbond",
+                  "create_bal", "create_cl", "vs_set", "vs_delegate", "vs_undelegate", "vs_withdraw"])
     # steer towards messages that can succeed in the state the history has built so far (a tenth stays unsteered)
     if not r.chance(1, 10):
         if k in ("unlock", "unlock_all", "extend") and not st["locks"]:
@@ -191,6 +203,10 @@ def gen_msg(r, acc, nacc, state):
             k = "tf_mint"
         if k == "withdraw_rewards" and not st["deleg"]:
             k = "delegate"
+        if k in ("vs_delegate", "vs_undelegate", "vs_withdraw") and not st.get("vs"):
+            k = "vs_set"
+        if k in ("vs_undelegate", "vs_withdraw") and not st.get("vsd"):
+            k = "vs_delegate"
         if k in ("sf_undelegate", "sf_unbond", "sf_undelegate_unbond") and not st.get("sf"):
             k = "sf_lock_delegate"
         if k == "sf_lock_delegate" and acc != 0 and not [q for q in st["shares"] if q in (1, 6)]:
@@ -318,8 +334,33 @@ def gen_msg(r, acc, nacc, state):
         return k, {"@type": "/osmosis.tokenfactory.v1beta1.MsgChangeAdmin", "sender": A, "denom": tfd, "new_admin": other}
     if k == "delegate":
         pend.append((acc, "deleg", True))
-        return k, {"@type": "/cosmos.staking.v1beta1.MsgDelegate", "delegator_address": A, "validator_address": "$VAL(0)",
+        return k, {"@type": "/cosmos.staking.v1beta1.MsgDelegate", "delegator_address": A, "validator_address": "$VAL(%d)" % r.below(3),
                    "amount": coin("stake", r.range(10**6, 10**9))}
+    if k == "create_bal":
+        ds = []
+        while len(ds) < 2:
+            d = r.choice(["stake", "uosmo", "foo", "bar", "baz", "uion", "usdc"])
+            if d not in ds:
+                ds.append(d)
+        assets = sorted([{"token": coin(d, r.range(10**6, 10**9)), "weight": str(r.range(1, 9))} for d in ds], key=lambda x: x["token"]["denom"])
+        return k, {"@type": "/osmosis.gamm.poolmodels.balancer.v1beta1.MsgCreateBalancerPool", "sender": A,
+                   "pool_params": {"swap_fee": r.choice(["0.003", "0.01", "0"]), "exit_fee": "0"}, "pool_assets": assets, "future_pool_governor": ""}
+    if k == "create_cl":
+        return k, {"@type": "/osmosis.concentratedliquidity.poolmodel.concentrated.v1beta1.MsgCreateConcentratedPool", "sender": A,
+                   "denom0": r.choice(["foo", "bar", "baz", "uion"]), "denom1": r.choice(["usdc", "stake", "uosmo"]),
+                   "tick_spacing": str(r.choice([1, 10, 100])), "spread_factor": r.choice(["0.001", "0.003", "0"])}
+    if k == "vs_set":
+        pend.append((acc, "vs", 1))
+        ws = r.choice([["1"], ["0.5", "0.5"], ["0.5", "0.3", "0.2"], ["0.333333", "0.333333", "0.333334"]])
+        return k, {"@type": "/osmosis.valsetpref.v1beta1.MsgSetValidatorSetPreference", "delegator": A,
+                   "preferences": [{"val_oper_address": "$VAL(%d)" % i, "weight": wt} for i, wt in enumerate(ws)]}
+    if k == "vs_delegate":
+        pend.append((acc, "vsd", 1))
+        return k, {"@type": "/osmosis.valsetpref.v1beta1.MsgDelegateToValidatorSet", "delegator": A, "coin": coin("stake", r.range(10**6, 10**9))}
+    if k == "vs_undelegate":
+        return k, {"@type": "/osmosis.valsetpref.v1beta1.MsgUndelegateFromValidatorSet", "delegator": A, "coin": coin("stake", r.range(10**3, 10**6))}
+    if k == "vs_withdraw":
+        return k, {"@type": "/osmosis.valsetpref.v1beta1.MsgWithdrawDelegationRewards", "delegator": A}
     if k == "sf_lock_delegate":
         pend.append((acc, "locks", 1))
         pend.append((acc, "sf", 1))
@@ -384,7 +425,7 @@ def gen_workload(r, idx, tier):
         # what this block's messages set up becomes usable from the next block on (references are resolved against committed state)
         for acc, key, val in state.pop("pending", []):
             stt = state[acc]
-            if key in ("locks", "pos", "sf"):
+            if key in ("locks", "pos", "sf", "vs", "vsd"):
                 stt[key] = stt.get(key, 0) + 1
             elif False:
                 stt[key] += 1
@@ -532,7 +573,9 @@ KV_KNOWN = [
     ("incentives", "differs", "0507", "incentives_gauges_by_denom_index_order", False),
     ("lockup", "only_original|differs.*|only_reimported", "20", "lockup_accumulation_tree_layout", True),
     ("protorev", "differs.*", "11", "protorev_cyclic_arb_tracker_sentinels", True),
-    ("protorev", "only_original", "02", "protorev_denom_pair_pools_not_exported", True),
+    ("protorev", "only_original|differs.*|only_reimported", "02", "protorev_denom_pair_pools_not_exported", True),
+    ("valsetpref", "only_original", "", "valsetpref_no_genesis", True),
+    ("poolmanager", "only_original", "0[ab]", "poolmanager_taker_fee_share_not_exported", True),
     ("protorev", "only_original", "0[4567]", "protorev_statistics_not_exported", True),
 ]
 
